@@ -5,9 +5,10 @@ from ..lang import gen, model, printer, values
 from ..runner import Outcome
 
 
-def run_model(prog, lines=None, files=None, step_limit=200000, fibers=False):
+def run_model(prog, lines=None, files=None, step_limit=200000, fibers=False, index_twice=False):
     """Returns (Result, None) or (None, discard reason)."""
     it = model.Interp(files=files, lines=lines, step_limit=step_limit)
+    it.index_twice = index_twice
     it.fibers = fibers  # background fibers that run to completion when the launcher waits (see Interp.fibers)
     try:
         return it.run(prog), None
